@@ -26,8 +26,8 @@ Ltac bool_hyps :=
          | H : (_ <=? _) = false |- _ => apply N.leb_gt in H
          | H : bool_decide _ = true |- _ => apply bool_decide_eq_true in H
          | H : bool_decide _ = false |- _ => apply bool_decide_eq_false in H
-         | H : is_none ?x = true |- _ => destruct x; [discriminate H|clear H]
-         | H : is_none ?x = false |- _ => destruct x; [clear H|discriminate H]
+         | H : is_none ?x = true |- _ => destruct x eqn:?; [discriminate H|clear H]
+         | H : is_none ?x = false |- _ => destruct x eqn:?; [clear H|discriminate H]
          end.
 
 Section Cursor.
@@ -175,6 +175,10 @@ Section Cursor.
   | CW_apply t i C P m : props w !! (t, i) = Some P ->
       p_apply P = Some Doing -> c_applied C < i -> (p_prev P = 0 \/ c_applied C = p_prev P) ->
       c_state C <> CSynchronizing -> c_term C <= c_aterm C -> c_master C = Some m ->
+      cfg_write w (CtlProp (t, i)) t C (C <| c_applied := i |>)
+  (* passFailedProposal: the applied index moves past a proposal whose Apply phase has failed *)
+  | CW_pass_failed t i C P : props w !! (t, i) = Some P ->
+      p_apply P = Some Failed -> c_applied C < i ->
       cfg_write w (CtlProp (t, i)) t C (C <| c_applied := i |>).
 
   (** * Effects of the transaction and connection reconcilers never touch configurations or the device *)
@@ -227,7 +231,7 @@ Section Cursor.
            | False => destruct H
            end.
 
-  Ltac close_sim := unfold sim, core; cbn; reflexivity.
+  Ltac close_sim := unfold sim, core; cbn; first [reflexivity | congruence].
 
   Lemma rec_prop_putcfg (o : oracle) (w : world) t i t' c :
     In (EPutCfg t' c) (fst (rec_prop o w (t, i))) ->
@@ -242,6 +246,7 @@ Section Cursor.
       in_cases H; injection H as <- <-; bool_hyps; eexists _, _; (split; [eassumption|]).
     all: first
       [ split; [eapply CW_apply; eauto; lia | close_sim]
+      | split; [eapply CW_pass_failed; eauto; lia | close_sim]
       | split; [eapply CW_abort_both; eauto; lia | close_sim]
       | split; [eapply CW_abort_committed; eauto; lia | close_sim]
       | split; [eapply CW_abort_applied; eauto; lia | close_sim]
@@ -256,5 +261,466 @@ Section Cursor.
     - right. left. reflexivity.
     - left. lia.
     Unshelve. all: exact 0.
+  Qed.
+  Lemma rec_prop_createcfg (o : oracle) (w : world) t i t' c :
+    In (ECreateCfg t' c) (fst (rec_prop o w (t, i))) ->
+    t' = t /\ cfgs w !! t = None /\ is_Some (props w !! (t, i)) /\ core c = (0, i, 0, 0, CUnknown, None, 0, None, 0).
+  Proof.
+    unfold Proto2.rec_prop, Proto2.vfail, Proto2.upd_status.
+    destruct (props w !! (t, i)) as [P|] eqn:HP; [|intros []].
+    destruct_matches; intros H;
+      try (match goal with E : _ = Some ?e |- _ => is_var e;
+             repeat match type of E with context [match ?x with _ => _ end] => destruct x eqn:? end;
+             try discriminate E; injection E as <- end);
+      in_cases H; injection H as <- <-. repeat split; eauto.
+  Qed.
+
+  (** * Device requests of the proposal reconciler *)
+  (* the guard under which reconcileApply sends the change of proposal (t, i) *)
+  Definition sent_by_apply (w : world) (o : oracle) (t i m term : N) (r : Req) (a : code) : Prop :=
+    exists C P, cfgs w !! t = Some C /\ props w !! (t, i) = Some P /\
+      term = c_term C /\ c_master C = Some m /\ (exists tt, rels w !! m = Some (tt, true)) /\ is_Some (conns w !! m) /\
+      a = dev_answer w t (c_term C) o /\
+      p_apply P = Some Doing /\ c_applied C < i /\ (p_prev P = 0 \/ c_applied C = p_prev P) /\
+      c_state C <> CSynchronizing /\ c_term C <= c_aterm C /\ is_Some (targets w !! t) /\
+      payload i (view C) (rb_change P) = Some r.
+
+  Lemma rec_prop_dev (o : oracle) (w : world) t i t' m term og r a :
+    In (EDev (DevSet t' m term og r a)) (fst (rec_prop o w (t, i))) ->
+    t' = t /\ og = Some i /\ sent_by_apply w o t i m term r a.
+  Proof.
+    unfold Proto2.rec_prop, Proto2.vfail, Proto2.upd_status.
+    destruct (props w !! (t, i)) as [P|] eqn:HP; [|intros []].
+    destruct_matches; intros H;
+      try (match goal with E : _ = Some ?e |- _ => is_var e;
+             repeat match type of E with context [match ?x with _ => _ end] => destruct x eqn:? end;
+             try discriminate E; injection E as <- end);
+      in_cases H; injection H as <- <- <- <- <- <-; bool_hyps;
+      (split; [reflexivity|]); (split; [reflexivity|]); eexists _, _;
+      repeat match goal with |- _ /\ _ => split end; eauto; try lia.
+    all: match goal with H : targets _ !! _ = Some _ |- _ => rewrite H; eexists; reflexivity end.
+  Qed.
+
+  (** * The configuration reconciler *)
+  Lemma resync_effs_in t m term a reqs e :
+    In e (fst (@resync_effs V Ch Req t m term a reqs)) -> exists r, e = EDev (DevSet t m term None r a) /\ In (Some r) reqs.
+  Proof.
+    induction reqs as [|[r|] rest IH]; cbn; try (intros []).
+    destruct a; cbn;
+      try (intros [<-|[]]; exists r; split; [reflexivity|left; reflexivity]).
+    destruct (resync_effs t m term COk rest) as [es res] eqn:E. cbn in *.
+    intros [<-|Hin]; [exists r; split; [reflexivity|left; reflexivity]|].
+    destruct (IH Hin) as (r' & -> & Hr). exists r'. split; [reflexivity|right; exact Hr].
+  Qed.
+
+  (* the re-push loop falls through only when every request was sent and answered OK *)
+  Lemma resync_effs_complete t m term a reqs :
+    snd (@resync_effs V Ch Req t m term a reqs) = None ->
+    exists rs, reqs = map Some rs /\
+               fst (@resync_effs V Ch Req t m term a reqs) = map (fun r => EDev (DevSet t m term None r COk)) rs.
+  Proof.
+    induction reqs as [|[r|] rest IH]; cbn.
+    - intros _. exists []. split; reflexivity.
+    - destruct a; cbn; try discriminate.
+      destruct (resync_effs t m term COk rest) as [es res] eqn:E. cbn in *. intros ->.
+      destruct (IH eq_refl) as (rs & -> & ->). exists (r :: rs). split; reflexivity.
+    - discriminate.
+  Qed.
+
+  Definition sent_by_resync (w : world) (o : oracle) (t m term : N) (r : Req) (a : code) : Prop :=
+    exists C, cfgs w !! t = Some C /\ targets w !! t = Some false /\
+      term = c_term C /\ c_master C = Some m /\ (exists tt, rels w !! m = Some (tt, true)) /\ is_Some (conns w !! m) /\
+      a = dev_answer w t (c_term C) o /\
+      c_state C = CSynchronizing /\ c_applied C <> 0 /\ In (Some r) (resync_payload (aview C)).
+
+  Lemma rec_cfg_dev (o : oracle) (w : world) t t' m term og r a :
+    In (EDev (DevSet t' m term og r a)) (fst (rec_cfg o w t)) ->
+    t' = t /\ og = None /\ sent_by_resync w o t m term r a.
+  Proof.
+    unfold Proto2.rec_cfg, Proto2.upd_status.
+    destruct_matches; intros H; cbn [fst] in H;
+      try (apply in_app_or in H; destruct H as [H|H]); in_cases H.
+    all: match goal with E : resync_effs ?t0 ?m0 ?te0 ?a0 ?rq0 = (?es, _), H : In _ ?es |- _ =>
+           let Hx := fresh in
+           pose proof (resync_effs_in t0 m0 te0 a0 rq0) as Hx;
+           rewrite E in Hx; cbn [fst] in Hx; destruct (Hx _ H) as (r' & Heq & Hr); injection Heq as -> -> -> -> -> -> end.
+    all: bool_hyps; (split; [reflexivity|]); (split; [reflexivity|]); eexists;
+      repeat match goal with |- _ /\ _ => split end; eauto; try (eexists; reflexivity).
+  Qed.
+
+  Lemma rec_cfg_putcfg (o : oracle) (w : world) t t' c :
+    In (EPutCfg t' c) (fst (rec_cfg o w t)) ->
+    exists C c0, cfgs w !! t' = Some C /\ cfg_write w (CtlCfg t) t' C c0 /\ sim c0 c.
+  Proof.
+    unfold Proto2.rec_cfg, Proto2.upd_status.
+    destruct_matches; intros H; cbn [fst] in H;
+      try (apply in_app_or in H; destruct H as [H|H]);
+      try (match goal with E : resync_effs ?t0 ?m0 ?te0 ?a0 ?rq0 = (?es, _), H : In _ ?es |- _ =>
+           let Hx := fresh in
+           pose proof (resync_effs_in t0 m0 te0 a0 rq0) as Hx;
+           rewrite E in Hx; cbn [fst] in Hx; destruct (Hx _ H) as (r' & Heq & Hr); discriminate Heq end);
+      in_cases H; injection H as <- <-; bool_hyps; eexists _, _; (split; [eassumption|]).
+    all: first
+      [ split; [eapply CW_persist; eauto | close_sim]
+      | split; [eapply CW_desync; eauto; lia | close_sim]
+      | split; [eapply CW_synced; eauto | close_sim] ].
+  Qed.
+
+  Lemma rec_cfg_createcfg (o : oracle) (w : world) t t' c : In (ECreateCfg t' c) (fst (rec_cfg o w t)) -> False.
+  Proof.
+    unfold Proto2.rec_cfg, Proto2.upd_status.
+    destruct_matches; intros H; cbn [fst] in H;
+      try (apply in_app_or in H; destruct H as [H|H]);
+      try (match goal with E : resync_effs ?t0 ?m0 ?te0 ?a0 ?rq0 = (?es, _), H : In _ ?es |- _ =>
+           let Hx := fresh in
+           pose proof (resync_effs_in t0 m0 te0 a0 rq0) as Hx;
+           rewrite E in Hx; cbn [fst] in Hx; destruct (Hx _ H) as (r' & Heq & Hr); discriminate Heq end);
+      in_cases H.
+  Qed.
+
+  (** * The mastership reconciler *)
+  Lemma my_rels_spec (w : world) t m : In m (my_rels w t) -> rels w !! m = Some (t, true).
+  Proof.
+    unfold my_rels. intros H. apply in_map_iff in H. destruct H as ([m' [t' b]] & <- & H). cbn.
+    apply elem_of_list_In in H. apply elem_of_list_filter in H. destruct H as [Hb H].
+    apply elem_of_map_to_list in H. cbn in Hb. apply bool_decide_unpack in Hb. rewrite H. f_equal. exact Hb.
+  Qed.
+
+  Lemma rec_master_putcfg (o : oracle) (w : world) t t' c :
+    In (EPutCfg t' c) (fst (rec_master o w t)) ->
+    exists C c0, cfgs w !! t' = Some C /\ cfg_write w (CtlMaster t) t' C c0 /\ sim c0 c.
+  Proof.
+    unfold Proto2.rec_master, Proto2.upd_status.
+    destruct_matches; intros H; in_cases H; injection H as <- <-; bool_hyps; eexists _, _; (split; [eassumption|]).
+    all: first
+      [ split; [eapply CW_resign; eauto; congruence | close_sim]
+      | split; [eapply CW_elect | close_sim] ].
+    all: try (apply my_rels_spec; match goal with E : my_rels _ _ = _ |- _ => rewrite E end;
+              eapply elem_of_list_In, elem_of_list_lookup_2; eassumption).
+    all: intros m0 Hm0; match goal with E : match _ with _ => _ end = false |- _ => rewrite Hm0 in E end; bool_hyps; assumption.
+  Qed.
+
+  Lemma rec_master_only_putcfg (o : oracle) (w : world) t e :
+    In e (fst (rec_master o w t)) -> match e with EPutCfg _ _ | EPutAValues _ _ => True | _ => False end.
+  Proof.
+    unfold Proto2.rec_master, Proto2.upd_status.
+    destruct_matches; intros H; in_cases H; subst e; exact I.
+  Qed.
+
+  Lemma rec_conn_only_rel (w : world) c e :
+    In e (fst (rec_conn w c)) -> match e with ERelCreate _ _ | ERelDelete _ => True | _ => False end.
+  Proof.
+    unfold Proto2.rec_conn. destruct_matches; intros H; in_cases H; subst e; exact I.
+  Qed.
+
+  (** * All reconcilers *)
+  Lemma reconcile_putcfg (o : oracle) (w : world) ctl t c :
+    In (EPutCfg t c) (fst (reconcile o w ctl)) ->
+    exists C c0, cfgs w !! t = Some C /\ cfg_write w ctl t C c0 /\ sim c0 c.
+  Proof.
+    destruct ctl as [i|[t0 i]|t0|t0|c0]; cbn [Proto2.reconcile]; intros H.
+    - destruct (tp_only_not_cfg _ _ _ (rec_tx_tp w i) H).
+    - eapply rec_prop_putcfg; eassumption.
+    - eapply rec_cfg_putcfg; eassumption.
+    - eapply rec_master_putcfg; eassumption.
+    - apply rec_conn_only_rel in H. destruct H.
+  Qed.
+
+  Lemma reconcile_createcfg (o : oracle) (w : world) ctl t c :
+    In (ECreateCfg t c) (fst (reconcile o w ctl)) ->
+    exists i, ctl = CtlProp (t, i) /\ cfgs w !! t = None /\ is_Some (props w !! (t, i)) /\
+              core c = (0, i, 0, 0, CUnknown, None, 0, None, 0).
+  Proof.
+    destruct ctl as [i|[t0 i]|t0|t0|c0]; cbn [Proto2.reconcile]; intros H.
+    - destruct (tp_only_not_create _ _ _ (rec_tx_tp w i) H).
+    - apply rec_prop_createcfg in H. destruct H as (-> & H1 & H2 & H3). exists i. auto.
+    - destruct (rec_cfg_createcfg _ _ _ _ _ H).
+    - apply rec_master_only_putcfg in H. destruct H.
+    - apply rec_conn_only_rel in H. destruct H.
+  Qed.
+
+  Lemma reconcile_dev (o : oracle) (w : world) ctl t m term og r a :
+    In (EDev (DevSet t m term og r a)) (fst (reconcile o w ctl)) ->
+    (exists i, ctl = CtlProp (t, i) /\ og = Some i /\ sent_by_apply w o t i m term r a) \/
+    (ctl = CtlCfg t /\ og = None /\ sent_by_resync w o t m term r a).
+  Proof.
+    destruct ctl as [i|[t0 i]|t0|t0|c0]; cbn [Proto2.reconcile]; intros H.
+    - destruct (tp_only_not_dev _ _ (rec_tx_tp w i) H).
+    - apply rec_prop_dev in H. destruct H as (-> & -> & H). left. exists i. auto.
+    - apply rec_cfg_dev in H. destruct H as (-> & -> & H). right. auto.
+    - apply rec_master_only_putcfg in H. destruct H.
+    - apply rec_conn_only_rel in H. destruct H.
+  Qed.
+  (** * One step, seen from one configuration / from the device log *)
+  Lemma cfg_step_none (w : world) l t : cfgs (step w l) !! t = None -> cfgs w !! t = None.
+  Proof.
+    destruct l as [chs sy se|ri|c k o|c t0|c|c t0|t0 p|t0|t0]; cbn [Proto2.step]; try (intros H; exact H).
+    - generalize (fst (reconcile o w c)). intros es. revert w k. induction es as [|e r IH]; intros w k H.
+      + rewrite firstn_nil in H. exact H.
+      + destruct k as [|k]; [exact H|]. cbn [firstn fold_left] in H. eapply cfg_apply_eff_none. eapply IH. exact H.
+    - destruct (conns w !! c); intros H; exact H.
+    - destruct (rels w !! c); intros H; exact H.
+  Qed.
+
+  Lemma cfg_step (w : world) l t C' :
+    cfgs (step w l) !! t = Some C' ->
+    (exists C, cfgs w !! t = Some C /\
+       (sim C C' \/ exists ctl k o c0, l = LRec ctl k o /\ cfg_write w ctl t C c0 /\ sim c0 C')) \/
+    (cfgs w !! t = None /\ exists i k o, l = LRec (CtlProp (t, i)) k o /\ is_Some (props w !! (t, i)) /\
+                                        core C' = (0, i, 0, 0, CUnknown, None, 0, None, 0)).
+  Proof.
+    destruct l as [chs sy se|ri|c k o|c t0|c|c t0|t0 p|t0|t0]; cbn [Proto2.step];
+      try (intros H; left; exists C'; split; [exact H|left; reflexivity]).
+    - intros H. apply cfg_prefix in H. destruct H as [(C & HC & S)|[(c0 & Hin & S)|(c0 & Hin & Hn & S)]].
+      + left. exists C. split; [exact HC|left; exact S].
+      + apply reconcile_putcfg in Hin. destruct Hin as (C & c1 & HC & Hw & S1). left. exists C. split; [exact HC|].
+        right. exists c, k, o, c1. split; [reflexivity|]. split; [exact Hw|]. eapply sim_trans; eassumption.
+      + apply reconcile_createcfg in Hin. destruct Hin as (i & -> & _ & Hp & Hc). right. split; [exact Hn|].
+        exists i, k, o. split; [reflexivity|]. split; [exact Hp|]. rewrite <- Hc. symmetry. exact S.
+    - destruct (conns w !! c); intros H; left; exists C'; (split; [exact H|left; reflexivity]).
+    - destruct (rels w !! c); intros H; left; exists C'; (split; [exact H|left; reflexivity]).
+  Qed.
+
+  Lemma devlog_step (w : world) l :
+    exists evs, devlog (step w l) = devlog w ++ evs /\
+      forall ev, In ev evs -> exists ctl k o, l = LRec ctl k o /\ In (EDev ev) (fst (reconcile o w ctl)).
+  Proof.
+    destruct l as [chs sy se|ri|c k o|c t0|c|c t0|t0 p|t0|t0]; cbn [Proto2.step];
+      try (exists []; split; [symmetry; apply app_nil_r|intros ev []]).
+    - destruct (devlog_prefix (fst (reconcile o w c)) w k) as (evs & Hd & Hin). exists evs. split; [exact Hd|].
+      intros ev Hev. exists c, k, o. split; [reflexivity|]. apply Hin. exact Hev.
+    - destruct (conns w !! c); exists []; (split; [symmetry; apply app_nil_r|intros ev []]).
+    - destruct (rels w !! c); exists []; (split; [symmetry; apply app_nil_r|intros ev []]).
+  Qed.
+
+  (* what a step appends to the device log *)
+  Lemma devlog_step_in (w : world) l evs t m term og r a :
+    devlog (step w l) = devlog w ++ evs -> In (DevSet t m term og r a) evs ->
+    exists ctl k o, l = LRec ctl k o /\
+      ((exists i, ctl = CtlProp (t, i) /\ og = Some i /\ sent_by_apply w o t i m term r a) \/
+       (ctl = CtlCfg t /\ og = None /\ sent_by_resync w o t m term r a)).
+  Proof.
+    intros Hd Hin. destruct (devlog_step w l) as (evs' & Hd' & Hin'). rewrite Hd in Hd'. apply app_inv_head in Hd'. subst evs'.
+    destruct (Hin' _ Hin) as (ctl & k & o & -> & He). exists ctl, k, o. split; [reflexivity|]. apply reconcile_dev. exact He.
+  Qed.
+
+  (** * C02, single step: who moves the cursors *)
+  Definition committed_of (w : world) (t : N) : N := match cfgs w !! t with Some C => c_committed C | None => 0 end.
+  Definition applied_of (w : world) (t : N) : N := match cfgs w !! t with Some C => c_applied C | None => 0 end.
+
+  Ltac sim_cbn S := apply sim_fields in S; cbn in S; destruct S as (S1 & S2 & S3 & S4 & S5 & S6 & S7 & S8 & S9).
+
+  Theorem committed_moves_by_successor (w : world) l t :
+    committed_of (step w l) t <> committed_of w t ->
+    exists i k o P, l = LRec (CtlProp (t, i)) k o /\ props w !! (t, i) = Some P /\
+      committed_of (step w l) t = i /\ committed_of w t = p_prev P /\
+      p_apply P = None /\ ((p_abort P = None /\ p_commit P = Some Doing) \/ p_abort P = Some Doing).
+  Proof.
+    unfold committed_of. destruct (cfgs (step w l) !! t) as [C'|] eqn:H'.
+    - apply cfg_step in H'. destruct H' as [(C & HC & [S|(ctl & k & o & c0 & -> & Hw & S)])|(Hn & i & k & o & -> & _ & Hc)].
+      + rewrite HC. sim_cbn S. intros Hne. congruence.
+      + rewrite HC. intros Hne. inversion Hw; subst; sim_cbn S; try congruence.
+        all: exists i, k, o, P; repeat split; auto; congruence.
+      + rewrite Hn. unfold core in Hc. injection Hc as _ _ -> _ _ _ _ _ _. intros Hne. congruence.
+    - rewrite (cfg_step_none _ _ _ H'). intros Hne. congruence.
+  Qed.
+
+  Theorem applied_moves_by_successor (w : world) l t :
+    applied_of (step w l) t <> applied_of w t ->
+    exists i k o P, l = LRec (CtlProp (t, i)) k o /\ props w !! (t, i) = Some P /\
+      applied_of (step w l) t = i /\
+      ((p_apply P = Some Doing /\ applied_of w t < i /\ (p_prev P = 0 \/ applied_of w t = p_prev P)) \/
+       (p_apply P = Some Failed /\ applied_of w t < i) \/
+       (p_apply P = None /\ p_abort P = Some Doing /\ applied_of w t = p_prev P)).
+  Proof.
+    unfold applied_of. destruct (cfgs (step w l) !! t) as [C'|] eqn:H'.
+    - apply cfg_step in H'. destruct H' as [(C & HC & [S|(ctl & k & o & c0 & -> & Hw & S)])|(Hn & i & k & o & -> & _ & Hc)].
+      + rewrite HC. sim_cbn S. intros Hne. congruence.
+      + rewrite HC. intros Hne. inversion Hw; subst; sim_cbn S; try congruence.
+        all: exists i, k, o, P; (split; [reflexivity|]); (split; [assumption|]); (split; [congruence|]); auto 8.
+      + rewrite Hn. unfold core in Hc. injection Hc as _ _ _ -> _ _ _ _ _. intros Hne. congruence.
+    - rewrite (cfg_step_none _ _ _ H'). intros Hne. congruence.
+  Qed.
+
+  (* C02: every request sent for proposal (t, i) comes from that proposal's reconcileApply, in its Apply phase,
+     when Applied.Index is its PrevIndex, outside SYNCHRONIZING and with the applied term up to date *)
+  Theorem sent_in_order (w : world) l evs t m term i r a :
+    devlog (step w l) = devlog w ++ evs -> In (DevSet t m term (Some i) r a) evs ->
+    exists k o, l = LRec (CtlProp (t, i)) k o /\ sent_by_apply w o t i m term r a.
+  Proof.
+    intros Hd Hin. destruct (devlog_step_in _ _ _ _ _ _ _ _ _ Hd Hin) as (ctl & k & o & -> & [(i' & -> & [= <-] & Hs)|(_ & Hx & _)]).
+    - exists k, o. auto.
+    - discriminate Hx.
+  Qed.
+  (** * One step, seen from one proposal *)
+  Lemma prop_apply_eff_lookup (w : world) (e : eff) k P' :
+    props (apply_eff w e) !! k = Some P' ->
+    props w !! k = Some P' \/ e = EPutProp k P' \/ (e = ECreateProp k P' /\ props w !! k = None).
+  Proof.
+    rewrite props_apply_eff. destruct e as [|k0 p|k0 p| | | | | | |]; try (intros H; left; exact H).
+    - destruct (props w !! k0) eqn:E0; [intros H; left; exact H|].
+      destruct (decide (k0 = k)) as [->|Hne].
+      + rewrite lookup_insert. intros [= <-]. right. right. auto.
+      + rewrite lookup_insert_ne by exact Hne. intros H; left; exact H.
+    - destruct (decide (k0 = k)) as [->|Hne].
+      + rewrite lookup_insert. intros [= <-]. right. left. reflexivity.
+      + rewrite lookup_insert_ne by exact Hne. intros H; left; exact H.
+  Qed.
+
+  Lemma prop_apply_eff_none (w : world) (e : eff) k : props (apply_eff w e) !! k = None -> props w !! k = None.
+  Proof.
+    rewrite props_apply_eff. destruct e as [|k0 p|k0 p| | | | | | |]; try (intros H; exact H).
+    - destruct (props w !! k0) eqn:E0; [intros H; exact H|].
+      destruct (decide (k0 = k)) as [->|Hne]; [rewrite lookup_insert; discriminate|rewrite lookup_insert_ne by exact Hne; auto].
+    - destruct (decide (k0 = k)) as [->|Hne]; [rewrite lookup_insert; discriminate|rewrite lookup_insert_ne by exact Hne; auto].
+  Qed.
+
+  Lemma prop_prefix (es : list eff) : forall (w : world) (n : nat) k P',
+    props (fold_left apply_eff (firstn n es) w) !! k = Some P' ->
+    props w !! k = Some P' \/ In (EPutProp k P') es \/ (In (ECreateProp k P') es /\ props w !! k = None).
+  Proof.
+    induction es as [|e r IH]; intros w n k P' H.
+    - rewrite firstn_nil in H. left. exact H.
+    - destruct n as [|n]; [left; exact H|]. cbn [firstn fold_left] in H.
+      destruct (IH _ _ _ _ H) as [H1|[Hin|[Hin Hn]]].
+      + destruct (prop_apply_eff_lookup _ _ _ _ H1) as [H0|[->|[-> Hn]]].
+        * left. exact H0.
+        * right. left. left. reflexivity.
+        * right. right. split; [left; reflexivity|exact Hn].
+      + right. left. right. exact Hin.
+      + right. right. split; [right; exact Hin|]. eapply prop_apply_eff_none. exact Hn.
+  Qed.
+
+  Lemma prop_step (w : world) l k P' :
+    props (step w l) !! k = Some P' ->
+    props w !! k = Some P' \/
+    exists ctl n o, l = LRec ctl n o /\
+      (In (EPutProp k P') (fst (reconcile o w ctl)) \/ (In (ECreateProp k P') (fst (reconcile o w ctl)) /\ props w !! k = None)).
+  Proof.
+    destruct l as [chs sy se|ri|c n o|c t0|c|c t0|t0 p|t0|t0]; cbn [Proto2.step]; try (intros H; left; exact H).
+    - intros H. apply prop_prefix in H. destruct H as [H|H]; [left; exact H|]. right. exists c, n, o. split; [reflexivity|exact H].
+    - destruct (conns w !! c); intros H; left; exact H.
+    - destruct (rels w !! c); intros H; left; exact H.
+  Qed.
+
+  (** * Proposal writes of the transaction reconciler *)
+  Lemma scan_props_inr_in (w : world) i tg f t p :
+    scan_props w i tg f = Some (inr (t, p)) -> props w !! (t, i) = Some p /\ f p = true /\ In t tg.
+  Proof.
+    induction tg as [|t0 ts IH]; cbn; [discriminate|].
+    destruct (props w !! (t0, i)) as [p0|] eqn:Hp; [|discriminate].
+    destruct (f p0) eqn:Hf.
+    - intros [= <- <-]. auto.
+    - intros H. destruct (IH H) as (H1 & H2 & H3). auto.
+  Qed.
+
+  Lemma phase_scan_putprop (w : world) i (T : txn) tg get start stop on_failed on_all_done k P' :
+    In (EPutProp k P') (fst (phase_scan w i T tg get start stop on_failed on_all_done)) ->
+    exists t p, k = (t, i) /\ props w !! (t, i) = Some p /\ P' = start p /\ In t tg /\ get p = None.
+  Proof.
+    unfold phase_scan. destruct (scan_props w i tg _) as [[u|[t p]]|] eqn:Hscan.
+    - intros [].
+    - apply scan_props_inr_in in Hscan. destruct Hscan as (Hp & Hf & Hin).
+      destruct (is_none (get p)) eqn:Hn; cbn; intros [H|[]]; [|discriminate H].
+      injection H as <- <-. exists t, p. repeat split; auto. destruct (get p); [discriminate|reflexivity].
+    - destruct (default false _); cbn; [intros [H|[]]; discriminate H|intros []].
+  Qed.
+
+  Lemma phase_scan_no_create (w : world) i (T : txn) tg get start stop on_failed on_all_done k P' :
+    In (ECreateProp k P') (fst (phase_scan w i T tg get start stop on_failed on_all_done)) -> False.
+  Proof.
+    unfold phase_scan. destruct_matches; cbn; intros H; in_cases H.
+  Qed.
+
+  Lemma gate_only_tx (w : world) i (T : txn) tg need next r e :
+    In e (fst (gate w i T tg need next r)) -> exists T', e = EPutTx i T'.
+  Proof.
+    unfold gate. destruct_matches; cbn; intros H; in_cases H. subst e. eexists. reflexivity.
+  Qed.
+
+  Lemma create_props_in (w : world) i l e :
+    In e (create_props w i l) -> exists tp, In tp l /\ e = ECreateProp (tp.1, i) tp.2.
+  Proof.
+    induction l as [|[t p] l IH]; cbn; [intros []|].
+    destruct (props w !! (t, i)); cbn.
+    - intros H. destruct (IH H) as (tp & Hin & ->). exists tp. auto.
+    - intros [<-|H]; [exists (t, p); auto|]. destruct (IH H) as (tp & Hin & ->). exists tp. auto.
+  Qed.
+
+  (* the four ways the transaction reconciler starts a phase on one of its proposals *)
+  Definition tx_starts (T : txn) (p P' : prop) : Prop :=
+    (t_apply T = Some Doing /\ p_apply p = None /\ P' = p <| p_apply := Some Doing |>) \/
+    (t_apply T = None /\ t_abort T = Some Doing /\ p_abort p = None /\ P' = p <| p_abort := Some Doing |>) \/
+    (t_apply T = None /\ t_abort T = None /\ t_commit T = Some Doing /\ p_commit p = None /\ P' = p <| p_commit := Some Doing |>) \/
+    (t_apply T = None /\ t_abort T = None /\ t_commit T = None /\ t_validate T = Some Doing /\ p_validate p = None /\
+     P' = p <| p_validate := Some Doing |>).
+
+  Ltac no_prop_eff :=
+    cbn [fst]; intros H;
+    try (apply in_app_or in H; destruct H as [H|H];
+         [apply create_props_in in H; destruct H as (? & _ & H); discriminate H|]);
+    in_cases H.
+
+  Lemma rec_tx_putprop (w : world) i k P' :
+    In (EPutProp k P') (fst (rec_tx w i)) ->
+    exists t p T, k = (t, i) /\ txs w !! i = Some T /\ In t (default [] (t_props T)) /\ props w !! k = Some p /\ tx_starts T p P'.
+  Proof.
+    unfold Proto2.rec_tx, fail_init. destruct (txs w !! i) as [T|] eqn:HT; [|intros []].
+    destruct (t_apply T) as [a|] eqn:Ea.
+    { destruct a; try (cbn; intros []). intros H. apply phase_scan_putprop in H.
+      destruct H as (t & p & -> & Hp & -> & Hin & Hg). exists t, p, T. repeat split; auto. left. auto. }
+    destruct (t_abort T) as [ab|] eqn:Eb.
+    { destruct ab; try (cbn; intros []). intros H. apply phase_scan_putprop in H.
+      destruct H as (t & p & -> & Hp & -> & Hin & Hg). exists t, p, T. repeat split; auto. right. left. auto. }
+    destruct (t_commit T) as [c|] eqn:Ec.
+    { destruct c; try (cbn; intros []).
+      - intros H. apply phase_scan_putprop in H.
+        destruct H as (t & p & -> & Hp & -> & Hin & Hg). exists t, p, T. repeat split; auto. right. right. left. auto.
+      - intros H. apply gate_only_tx in H. destruct H as (? & H). discriminate H. }
+    destruct (t_validate T) as [v|] eqn:Ev.
+    { destruct v; try (cbn; intros []).
+      - intros H. apply phase_scan_putprop in H.
+        destruct H as (t & p & -> & Hp & -> & Hin & Hg). exists t, p, T. repeat split; auto. right. right. right. repeat split; auto.
+      - intros H. apply gate_only_tx in H. destruct H as (? & H). discriminate H. }
+    destruct (t_init T) as [ini|] eqn:Ei; [|no_prop_eff].
+    destruct ini; try (cbn; intros []).
+    - destruct_matches; no_prop_eff.
+    - intros H. apply gate_only_tx in H. destruct H as (? & H). discriminate H.
+  Qed.
+
+  (* proposals are created by the Initialize phase of their transaction, once the previous transaction is past it *)
+  Lemma rec_tx_createprop (w : world) i k P' :
+    In (ECreateProp k P') (fst (rec_tx w i)) ->
+    exists t T, k = (t, i) /\ txs w !! i = Some T /\
+      t_apply T = None /\ t_abort T = None /\ t_commit T = None /\ t_validate T = None /\ t_init T = Some Doing /\ t_props T = None /\
+      (forall Pv, txs w !! (i - 1) = Some Pv -> t_init Pv = Some Done \/ t_init Pv = Some Failed) /\
+      ((exists c, P' = new_change_prop c) \/ (exists ri, P' = new_rollback_prop ri)).
+  Proof.
+    unfold Proto2.rec_tx, fail_init. destruct (txs w !! i) as [T|] eqn:HT; [|intros []].
+    destruct (t_apply T) as [a|] eqn:Ea.
+    { destruct a; try (cbn; intros []). intros H. destruct (phase_scan_no_create _ _ _ _ _ _ _ _ _ _ _ H). }
+    destruct (t_abort T) as [ab|] eqn:Eb.
+    { destruct ab; try (cbn; intros []). intros H. destruct (phase_scan_no_create _ _ _ _ _ _ _ _ _ _ _ H). }
+    destruct (t_commit T) as [c|] eqn:Ec.
+    { destruct c; try (cbn; intros []).
+      - intros H. destruct (phase_scan_no_create _ _ _ _ _ _ _ _ _ _ _ H).
+      - intros H. apply gate_only_tx in H. destruct H as (? & H). discriminate H. }
+    destruct (t_validate T) as [v|] eqn:Ev.
+    { destruct v; try (cbn; intros []).
+      - intros H. destruct (phase_scan_no_create _ _ _ _ _ _ _ _ _ _ _ H).
+      - intros H. apply gate_only_tx in H. destruct H as (? & H). discriminate H. }
+    destruct (t_init T) as [ini|] eqn:Ei; [|cbn; intros [H|[]]; discriminate H].
+    destruct ini; try (cbn; intros []).
+    2:{ intros H. apply gate_only_tx in H. destruct H as (? & H). discriminate H. }
+    destruct (match txs w !! (i - 1) with Some P => _ | None => false end) eqn:Hprev; [cbn; intros []|].
+    assert (Hpv : forall Pv, txs w !! (i - 1) = Some Pv -> t_init Pv = Some Done \/ t_init Pv = Some Failed).
+    { intros Pv HPv. rewrite HPv in Hprev. destruct (t_init Pv) as [[]|]; cbn in Hprev; try discriminate; auto. }
+    clear Hprev.
+    destruct (t_props T) eqn:Ep; [destruct_matches; cbn; intros H; in_cases H|].
+    destruct_matches; cbn [fst]; intros H; try (in_cases H; fail);
+      (apply in_app_or in H; destruct H as [H|H]; [|in_cases H]);
+      apply create_props_in in H; destruct H as ([tt pp] & Hin & H); cbn in H; injection H as -> ->;
+      apply in_map_iff in Hin; destruct Hin as (tc & Heq & _); injection Heq as <- <-;
+      eexists _, T; repeat split; eauto.
   Qed.
 End Cursor.
